@@ -177,6 +177,9 @@ where
         return Err(Fail::new("Piecewise::integral, integral_iter_ref and integral_iter (by value) do not produce identical pieces", detail(json!({"integral": ni.iter().map(|v| fjs(v)).collect::<Vec<_>>(), "iter_ref": nr.iter().map(|v| fjs(v)).collect::<Vec<_>>(), "iter_by_value": nv.iter().map(|v| fjs(v)).collect::<Vec<_>>()}))));
     }
     for (name, res) in [("integral(k0)", &int), ("indefinite()", &ind)] {
+        if let Some(c) = res.segments.iter().flat_map(|s| s.poly.nums()).find(|c| !c.is_finite()) {
+            return Err(Fail::new(format!("{name}: returned a non-finite number for finite pieces and a finite knot"), detail(json!({"number": fj(c)}))));
+        }
         let re: Vec<f64> = res.segments.iter().map(|s| s.end).collect();
         if !all_bits_eq(&re, ends) {
             return Err(Fail::new(format!("{name}: breakpoints differ from the source's"), detail(json!({"result_ends": fjs(&re)}))));
